@@ -1,4 +1,5 @@
 import Qryn.Proofs.MetricXRange
+import Qryn.Gen.QuantileOps
 /-! C08 ext, part 4: `QuantilePlanner`. ClickHouse's `quantile(φ)(x)` is the oracle `Oracles.quantile φ` applied to the
     values of the group (`Sql.SemAgg`); what is proved of the plan does not depend on it: the rows of every group are exactly
     the entry points of one (series, range bucket), φ is the written parameter, the labels are those of the series. -/
@@ -193,5 +194,32 @@ theorem quant_eval (o : Oracles) (db : Db) (env : Env) (phi : NumLit) (d : Nat) 
     intro c hc
     simp only [quantCols, List.mem_cons, List.not_mem_nil, or_false] at hc
     rcases hc with rfl | rfl | rfl | rfl <;> simp [colName, bucketCol, simpleCol, Std5]
+
+
+/-! ### the texts of planner_quantile.go (regenerated fact `Gen.QuantileOps`) are those of the model -/
+/-- text of a column expression of the model's `QuantilePlanner` select with the Go format holes (`%d` range, `%f` φ) -/
+def quantColText : Expr → String
+  | .col (.raw s) _ => s
+  | .col (.mulOp (.call "intDiv" [.raw src, _]) _) _ => "intDiv(" ++ src ++ ", %d) * %[1]d"
+  | .col (.quantileAgg _ _ c) _ => "quantile(%f)(" ++ c ++ ")"
+  | .col (.call fn [.raw a]) _ => fn ++ "(" ++ a ++ ")"
+  | _ => "?"
+
+/-- what `QuantilePlanner.Process` writes, in source order, read off the model: WITH alias, the looked-up column, then every
+    column text and alias, the GROUP BY keys, the labels column -/
+def quantileTextsModel : List String :=
+  let cols := quantCols ⟨0, []⟩ 1
+  let main3 := cols.take 3
+  ["quant_a", "labels"] ++ main3.flatMap (fun c => [quantColText c, colName c]) ++ ["timestamp_ns", "fingerprint"] ++
+    (cols.drop 3).flatMap (fun c => [quantColText c, colName c])
+
+theorem quantileTexts_eq : quantileTextsModel = Gen.QuantileOps.texts := by decide
+
+/-- the range goes into the bucket column, the parsed parameter into `quantile(%f)`; `planQuantileOverTime` takes them from
+    the script's range and parameter -/
+theorem quantileArgs_eq :
+    Gen.QuantileOps.fmtArgs = [("intDiv(quant_a.timestamp_ns, %d) * %[1]d", "p.Duration.Nanoseconds()"), ("quantile(%f)(value)", "p.Param")] ∧
+    Gen.QuantileOps.wiring = [("Main", "p.samplesPlanner"), ("Param", "strconv.ParseFloat(script.Param, 64)"),
+      ("Duration", "time.ParseDuration(script.Time + script.TimeUnit)")] := by decide
 
 end Qryn.LogQL
